@@ -10,6 +10,7 @@ import (
 
 	"verifharness/checks"
 	"verifharness/core"
+	"verifharness/gen"
 )
 
 func main() {
@@ -22,6 +23,15 @@ func main() {
 			fmt.Fprintln(os.Stderr, err)
 			os.Exit(1)
 		}
+		return
+	}
+	if len(os.Args) >= 5 && os.Args[1] == "gen" {
+		// vcheck gen <shape> <size> <seed>: dump a generated input to stdout (debugging aid)
+		var n int
+		var seed int64
+		fmt.Sscan(os.Args[3], &n)
+		fmt.Sscan(os.Args[4], &seed)
+		os.Stdout.Write(gen.Make(os.Args[2], n, seed))
 		return
 	}
 	if len(os.Args) < 2 {
